@@ -173,7 +173,103 @@ def standin_sampler_limiter(tier, seed):
                 failures=len(fails), exhaustive=False, _fails=fails[:2])
 standin_sampler_limiter.prop = "C20"
 
-STANDINS = [standin_collector_schedules, standin_sampler_limiter]
+
+def standin_engine_stream_faults(tier, seed):
+    """Engine.run_sweep over a stream that dies at every point of the submission (before the program exists, after the program, after
+    the job), with caller-chosen and library-chosen program / job ids, against an in-memory server: the submitter gets the result, the
+    job ran exactly once, one program exists"""
+    from http import HTTPStatus
+
+    import duet
+    from google.protobuf.text_format import Merge
+
+    import cirq
+    import cirq_google as cg
+    from cirq_google.api import v2
+    from cirq_google.cloud import quantum
+    from cirq_google.engine import EngineException, util
+    from cirq_google.engine.engine import EngineContext
+    from cirq_google.engine.stream_manager import StreamError
+
+    q = cirq.GridQubit(1, 1)
+    circuit = cirq.Circuit(cirq.X(q) ** 0.5, cirq.measure(q, key="q"))
+    text = "sweep_results: [{ repetitions: 1, parameterized_results: [{ params: { assignments: { key: 'a' value: 7 } }, measurement_results: { key: 'q' qubit_measurement_results: [{ qubit: { id: '1_1' } results: '\\001' }] } }] }]"
+    result_msg = quantum.QuantumResult(result=util.pack_any(Merge(text, v2.result_pb2.Result())))
+
+    class Server:
+        """duck-typed EngineClient over an in-memory server; `dies` says how far the streamed submission gets before the stream fails"""
+
+        def __init__(self, dies):
+            self.dies, self.programs, self.runs, self.log = dies, set(), {}, []
+
+        def run_job_over_stream(self, *, project_id, program_id, job_id, **kw):
+            self.log.append(f"stream({program_id},{job_id})")
+            fut = duet.AwaitableFuture()
+            if self.dies in ("after-program", "after-job", "never"):
+                self.programs.add(program_id)
+            if self.dies in ("after-job", "never"):
+                self.runs[(program_id, job_id)] = self.runs.get((program_id, job_id), 0) + 1
+            if self.dies == "never":
+                fut.set_result(result_msg)
+            else:
+                fut.set_exception(StreamError(f"stream broke ({self.dies})"))
+            return fut
+
+        async def create_program_async(self, project_id, program_id, code, description=None, labels=None):
+            self.log.append(f"create_program({program_id})")
+            if program_id in self.programs:
+                raise EngineException("program already exists", HTTPStatus.CONFLICT)
+            self.programs.add(program_id)
+            return program_id, quantum.QuantumProgram(name=f"projects/{project_id}/programs/{program_id}")
+
+        def get_program(self, project_id, program_id, return_code=False):
+            return quantum.QuantumProgram(name=f"projects/{project_id}/programs/{program_id}")
+
+        async def get_program_async(self, project_id, program_id, return_code=False):
+            return self.get_program(project_id, program_id, return_code)
+
+        async def create_job_async(self, project_id, program_id, job_id, processor_id, **kw):
+            self.log.append(f"create_job({program_id},{job_id})")
+            if program_id not in self.programs:
+                raise EngineException("program does not exist", HTTPStatus.NOT_FOUND)
+            if (program_id, job_id) in self.runs:
+                raise EngineException("job already exists", HTTPStatus.CONFLICT)
+            self.runs[(program_id, job_id)] = 1
+            return job_id, quantum.QuantumJob(name=f"projects/{project_id}/programs/{program_id}/jobs/{job_id}", execution_status={"state": "READY"})
+
+        async def get_job_async(self, project_id, program_id, job_id, return_run_context=False):
+            self.log.append(f"get_job({program_id},{job_id})")
+            if (program_id, job_id) not in self.runs:
+                raise EngineException("job not found", HTTPStatus.NOT_FOUND)
+            return quantum.QuantumJob(name=f"projects/{project_id}/programs/{program_id}/jobs/{job_id}", execution_status={"state": "SUCCESS"})
+
+        async def get_job_results_async(self, project_id, program_id, job_id):
+            self.log.append(f"get_job_results({program_id},{job_id})")
+            if (program_id, job_id) not in self.runs:
+                raise EngineException("job not found", HTTPStatus.NOT_FOUND)
+            return result_msg
+
+    cases, fails = 0, []
+    for dies, program_id, job_id in itertools.product(("never", "before-program", "after-program", "after-job"), (None, "my-prog"), (None, "my-job")):
+        cases += 1
+        server = Server(dies)
+        engine = cg.Engine(project_id="proj", context=EngineContext(client=server, enable_streaming=True))
+        args = dict(stream_dies=dies, program_id=program_id, job_id=job_id)
+        try:
+            job = engine.run_sweep(program=circuit, program_id=program_id, job_id=job_id, processor_id="p0", params=[cirq.ParamResolver({"a": 7})])
+            results = job.results()
+        except Exception as ex:
+            fails.append(dict(args=dict(args, calls=server.log), failed="stream-fault", clause=f"the submitter got {ex!r} instead of the result"))
+            continue
+        executed = sum(server.runs.values())
+        if len(results) != 1 or results[0].params.param_dict != {"a": 7} or executed != 1 or len(server.programs) != 1:
+            fails.append(dict(args=dict(args, calls=server.log), failed="stream-fault", clause=f"results={len(results)}, job executions on the server={executed}, programs={len(server.programs)} (expected 1, 1, 1)"))
+    return dict(function="cirq-google/cirq_google/engine/engine.py:Engine.run_sweep_async + engine_job.py:EngineJob._await_result_async", case="stream-faults",
+                bound="4 points at which the stream dies x caller-chosen / library-chosen program id x caller-chosen / library-chosen job id (exhaustive), in-memory server",
+                cases=cases, distinct=cases, failures=len(fails), exhaustive=True, _fails=fails[:3])
+standin_engine_stream_faults.prop = "C20"
+
+STANDINS = [standin_collector_schedules, standin_sampler_limiter, standin_engine_stream_faults]
 
 
 def _replay_collector(ob, seed):
